@@ -91,7 +91,7 @@ def build(tier):
 REQUIRED_REGIMES = {"converged", "limit_reached", "repopulated", "rounds_1", "rounds_2plus", "multi_series", "odd_W",
                     "series_of_exactly_W_rows", "W1", "empty_final_cluster", "vector_beta", "biased_covariance",
                     "label_switch_under_unequal_per_pair_beta", "scaled_data", "eps_floor",
-                    "label_change_at_series_boundary", "equal_length_series_with_several_labels", "asymmetric_matrix_lambda_writable", "floor_below_bic_threshold", "level_far_above_spread",
+                    "label_change_at_series_boundary", "equal_length_series_with_several_labels", "asymmetric_matrix_lambda_writable", "floor_below_bic_threshold", "level_far_above_spread", "non_float64_series_in_a_list",
                     "converged_after_repopulation_with_every_cluster_non_empty"}
 
 
@@ -115,7 +115,7 @@ def build_complete(tier):
         if not missing:
             break
         extra = []
-        for i in range(32):
+        for i in range(35):
             c = runs.gen_config(rng, i, tier)
             c["id"] = f"topup{attempt}/{i}"
             extra.append(c)
@@ -162,6 +162,8 @@ def regimes(tr):
     K = hdr["K"]
     if any(labels.count(k) == 0 for k in range(K)):
         r.add("empty_final_cluster")
+    if hdr["cfg"].get("series_dtype") and hdr["fe"] == "joint":
+        r.add("non_float64_series_in_a_list")
     if hdr["cfg"].get("offset", 0) >= 1e6:
         r.add("level_far_above_spread")
     if 0 < hdr["eps"] < 2e-5:
